@@ -22,6 +22,14 @@ fn rules_str(v: &crate::validate::Validation) -> String {
     s.join("+")
 }
 
+fn outcome_name<T>(r: &Result<Result<T, cfr::GameError>, String>) -> String {
+    match r {
+        Ok(Ok(_)) => "Ok".into(),
+        Ok(Err(e)) => format!("Err({:?})", e),
+        Err(m) => format!("panic({})", m),
+    }
+}
+
 /// returns true if judged without violation
 pub fn judge(ctx: &mut Ctx, idx: u64, rng: &mut Rng, origin: &str, tree: &HNode, probe_solve: bool) -> bool {
     let v = validate(tree);
@@ -29,6 +37,41 @@ pub fn judge(ctx: &mut Ctx, idx: u64, rng: &mut Rng, origin: &str, tree: &HNode,
     let hash = tree.structural_hash();
     let nontrivial = !matches!(tree, HNode::Term(_));
     ctx.count(if v.valid() { "trees_valid_by_oracle" } else { "trees_invalid_by_oracle" }, 1);
+    // the same tree presented with a key type whose Hash collides almost always: the verdict and
+    // what an accepted game computes must not depend on the hashes of the names being distinct
+    if rng.chance(0.25) {
+        ctx.count("trees_also_built_with_colliding_hash_keys", 1);
+        let weak = catch(|| bridge::build_weak(tree));
+        let same = match (&res, &weak) {
+            (Ok(Ok(g)), Ok(Ok(w))) => {
+                let a = catch(|| g.solve(cfr::SolveMethod::Full, 3, 0.0, 1, None).map(|(s, b)| (s.verif_probs().map(|v| v.to_vec()), b.regret_bound(), s.get_info().player_utility(cfr::PlayerNum::One))));
+                let b = catch(|| w.solve(cfr::SolveMethod::Full, 3, 0.0, 1, None).map(|(s, b)| (s.verif_probs().map(|v| v.to_vec()), b.regret_bound(), s.get_info().player_utility(cfr::PlayerNum::One))));
+                match (a, b) {
+                    (Ok(Ok(x)), Ok(Ok(y))) => {
+                        let eq = x.0 == y.0 && x.1.to_bits() == y.1.to_bits() && x.2.to_bits() == y.2.to_bits();
+                        if eq {
+                            None
+                        } else {
+                            Some(format!("solve(Full, 3) differs: utility {} vs {}, bound {} vs {}", x.2, y.2, x.1, y.1))
+                        }
+                    }
+                    (Err(_), Err(_)) | (Ok(Err(_)), Ok(Err(_))) => None,
+                    (x, y) => Some(format!("solve(Full, 3): {:?} with String keys, {:?} with colliding-hash keys", x.map(|r| r.map(|t| t.2)), y.map(|r| r.map(|t| t.2)))),
+                }
+            }
+            (Ok(Err(_)), Ok(Err(_))) | (Err(_), Err(_)) => None,
+            (a, b) => Some(format!("from_root: {} with String keys, {} with colliding-hash keys", outcome_name(a), outcome_name(b))),
+        };
+        if let Some(what) = same {
+            ctx.violation(
+                idx,
+                "C11:verdict-or-result-depends-on-key-hashes",
+                &format!("the same tree built with names whose Hash collides (equal names still compare equal) behaves differently: {} ({})", what, origin),
+                json!({"game": tree.to_json(), "origin": origin}),
+            );
+            return false;
+        }
+    }
     match res {
         Err(msg) => {
             ctx.violation(idx, "C11:from_root:panic", &format!("from_root panicked: {} ({})", msg, origin), json!({"game": tree.to_json(), "origin": origin}));
